@@ -159,3 +159,33 @@ Theorem C17_reghttp_late_release_refuted : resp_run false true 0 [true; true] = 
 Proof. exact late_release_refuted. Qed.
 Theorem C17_reghttp_leaking_exit_refuted : resp_run true false 0 [false] = Some 1.
 Proof. exact leaking_exit_refuted. Qed.
+
+(* ---- the `parallel` slot of one regsync step (cmd/regsync processRef): generated table Gen/SyncSlots.v (extract/syncslots.go,
+   per run): one row per explicit release and per return after the first acquisition, with whether the step holds a slot there
+   and whether a deferred release is registered ---- *)
+From Coq Require Import String.
+From Verif Require Import Gen.SyncSlots Model.C17_Step Proofs.C17s.
+Definition sync_row_ok (r : sync_row) : bool :=
+  if String.eqb (sr_kind r) "release" then sr_held r else Bool.eqb (sr_held r) (sr_deferred r).
+(* every explicit release finds a held slot; every way out of the step either holds a slot and has the deferred release
+   registered, or holds nothing and has none registered: each acquisition is released exactly once *)
+Theorem C17_regsync_step_releases_once : forall r, In r sync_rows -> sync_row_ok r = true.
+Proof.
+  assert (H : forallb sync_row_ok sync_rows = true) by (vm_compute; reflexivity).
+  rewrite forallb_forall in H. exact H.
+Qed.
+Print Assumptions C17_regsync_step_releases_once.
+Example C17_sync_table_nonvacuous :
+  existsb (fun r => String.eqb (sr_kind r) "release") sync_rows = true /\
+  existsb (fun r => String.eqb (sr_kind r) "return" && sr_deferred r) sync_rows = true /\
+  existsb (fun r => String.eqb (sr_kind r) "return" && negb (sr_held r)) sync_rows = true.
+Proof. vm_compute. repeat split. Qed.
+(* what the discipline buys: a step whose events alternate acquire / release never frees a slot it does not hold and
+   occupies exactly the slot it holds, for every event sequence; a second release (the deferred one after an explicit one)
+   frees a slot some other step holds - the throttle's count then no longer bounds the running steps *)
+Theorem C17_disciplined_step_exact : forall es, disciplined false es = true ->
+  lost (srun es sinit) = 0 /\ in_use (srun es sinit) = (if held (srun es sinit) then 1 else 0).
+Proof. exact disciplined_exact. Qed.
+Print Assumptions C17_disciplined_step_exact.
+Theorem C17_double_release_refuted : lost (srun [SAcq; SRel; SRel] sinit) = 1.
+Proof. exact double_release_refuted. Qed.
